@@ -223,6 +223,106 @@ def const(ctx: Any) -> List[Ob]:
     return obs
 
 
+def _test_kinds(ctx: Any, f: FuncInfo, t: ast.AST) -> List[str]:
+    """Semantic kinds of the rejection checks a test expression performs."""
+    prog = ctx.prog
+    p0 = f.params[0]
+    kinds: List[str] = []
+    for x in ast.walk(t):
+        if isinstance(x, ast.Compare) and len(x.ops) == 1:
+            l, o, r = x.left, x.ops[0], x.comparators[0]
+            for a, b in ((l, r), (r, l)):
+                if isinstance(a, ast.Call) and norm(a.func) == 'len' and a.args:
+                    okc, kv = prog.try_fold(f.module, b)
+                    if norm(a.args[0]) == p0:
+                        kinds.append('whole-length')
+                    elif okc and isinstance(kv, int) and 10 <= kv <= 20:
+                        kinds.append('service-length')
+                if isinstance(a, ast.Name) and a.id not in f.params:
+                    okc, kv = prog.try_fold(f.module, b)
+                    if okc and isinstance(kv, int) and 60 <= kv <= 70:
+                        kinds.append('label-length')
+                if isinstance(a, ast.Subscript) and isinstance(b, ast.Constant) and b.value == '_' and isinstance(o, (ast.NotEq, ast.Eq)):
+                    kinds.append('underscore')
+            if isinstance(o, (ast.In, ast.NotIn)) and isinstance(l, ast.Constant):
+                if l.value == '--':
+                    kinds.append('double-hyphen')
+                if l.value == '-' and isinstance(r, ast.Tuple):
+                    kinds.append('edge-hyphen')
+        if isinstance(x, ast.Call) and isinstance(x.func, ast.Attribute):
+            if x.func.attr == 'endswith' and norm(x.func.value) == p0:
+                kinds.append('trailer')
+            if x.func.attr == 'startswith' and x.args and isinstance(x.args[0], ast.Constant) and x.args[0].value == '_':
+                kinds.append('underscore')
+            if x.func.attr in ('search', 'match', 'fullmatch'):
+                base = x.func.value
+                names = [norm(base)]
+                if isinstance(base, ast.Name):
+                    for st in walk_local_ordered(f.node):
+                        if isinstance(st, ast.Assign) and norm(st.targets[0]) == base.id and isinstance(st.value, ast.IfExp):
+                            names = [norm(st.value.body), norm(st.value.orelse)]
+                for n in names:
+                    if n == '_HAS_A_TO_Z':
+                        kinds.append('has-letter')
+                    elif n.startswith('_HAS_ONLY'):
+                        kinds.append('charset')
+                    elif n == '_HAS_ASCII_CONTROL_CHARS':
+                        kinds.append('control-chars')
+    return sorted(set(kinds))
+
+
+@rule('C19.CASCADE', 'N', expect_min=3)
+def cascade(ctx: Any) -> List[Ob]:
+    """No accepting path skips a documented rule: every path of the validator that returns (accepts)
+    has evaluated the whole-name limit and the trailer test; in strict mode, or when a protocol
+    trailer is present, also the underscore, hyphen, letter and character-set checks (and the
+    15-character limit in strict mode); and the instance-label checks (63 bytes, control characters)
+    are always evaluated together."""
+    R = 'C19.CASCADE'
+    from sa import fd
+
+    f = ctx.prog.func(VALIDATOR)
+    cfg = cfg_of(f.node)
+    strict_p = next((p for p in f.params if p == 'strict'), None)
+    if strict_p is None:
+        raise AnalysisError('anchor vanished: `strict` parameter of the validator')
+
+    def eff(node: Any, evl: Any) -> List[Any]:
+        out: List[Any] = []
+        if node.kind == 'test':
+            out.extend('K:' + k for k in _test_kinds(ctx, f, node.ast))
+        if node.kind == 'stmt' and isinstance(node.ast, ast.Assign) and isinstance(node.ast.value, ast.Constant) and isinstance(node.ast.value.value, bool):
+            out.append(f'FLAG:{norm(node.ast.targets[0])}={node.ast.value.value}')
+        return out
+
+    obs: List[Ob] = []
+    BASE = {'whole-length', 'trailer'}
+    SVC = {'underscore', 'double-hyphen', 'edge-hyphen', 'has-letter', 'charset'}
+    for strict in (True, False):
+        oc, _ = fd.run_paths(ctx.prog, f.module, cfg, {strict_p: strict}, eff, loop_bound=1)
+        accepting = [t for t in oc if any(isinstance(x, tuple) and x[0] == 'ret' for x in t)]
+        if not accepting:
+            raise AnalysisError('the validator has no accepting path')
+        bad: List[str] = []
+        for t in accepting:
+            kinds = {x[2:] for x in t if isinstance(x, str) and x.startswith('K:')}
+            has_proto = any(isinstance(x, str) and x.startswith('FLAG:') and x.endswith('=True') for x in t)
+            need = set(BASE)
+            if strict or has_proto:
+                need |= SVC
+            if strict:
+                need.add('service-length')
+            miss = need - kinds
+            if miss:
+                bad.append(f'an accepting path skips {sorted(miss)}')
+            if ('label-length' in kinds) != ('control-chars' in kinds):
+                bad.append('instance-label length and control-character checks are not evaluated together')
+        obs.append(ob(R, f, f'strict={strict}: {len(accepting)} accepting path(s)', 'every accepting path has evaluated every documented rule of its mode', not bad, '; '.join(sorted(set(bad)))[:300]))
+        inst = [t for t in accepting if any(x == 'K:label-length' for x in t)]
+        obs.append(ob(R, f, f'strict={strict}: {len(inst)} accepting path(s) with an instance label', 'names with an instance / subtype label go through the 63-byte and control-character checks', bool(inst)))
+    return obs
+
+
 @rule('C19.TXT', 'N', expect_min=5)
 def txt(ctx: Any) -> List[Ob]:
     """TXT codec agreement (RFC 6763 section 6): writer and reader both use a
@@ -279,8 +379,8 @@ EXPLANATION = (
     'C19.TOTAL (decided): may-raise analysis of the validator with the implicit catalogue; IndexError obligations are discharged by '
     'a path-sensitive length-interval analysis (split >= 1, pop, slices, guards with short-circuit); only BadTypeInNameException may '
     'escape. C19.REGEX (decided): regex syntax trees -- start anchor, (set)+, end-of-STRING anchor, exact character sets. '
-    'C19.CONST (decided): 256 / 15 / 63 limits as normalised comparisons at their use sites, trailers. C19.TXT (necessary condition): '
+    'C19.CASCADE (necessary): every accepting path of the validator has evaluated every documented rule of its mode (no fast path around a check). C19.CONST (decided): 256 / 15 / 63 limits as normalised comparisons at their use sites, trailers. C19.TXT (necessary condition): '
     'writer/reader agreement of the TXT item framing. Not decided: agreement of the whole cascade with the grammar on every string [X]; '
     'lone surrogates (UnicodeEncodeError) are excluded by assumption A4.'
 )
-RULES = [total, regex, const, txt]
+RULES = [total, regex, const, cascade, txt]
